@@ -152,6 +152,8 @@ def stStep (s : State) (args : List String) : State × String :=
   | ["stripann"] => (s.stripAnn, "ok -")
   | ["stripdata"] => (s.stripData, "ok -")
   | "finddata" :: rest => (s, findDataCmd s rest)
+  | "qann" :: rest => (s, qannCmd s rest)
+  | "qand" :: rest => (s, qandCmd s rest)
   | ["obs"] => (s, observe s)
   | _ => (s, "bad-op")
 
